@@ -231,7 +231,7 @@ func runC15(c *Ctx) {
 				}
 				c.obI("R15.2", ci, "stream-close-only-on-request", guardedBy(ci, nil, optClose), "the stream's Close is called only when the closing option was requested (also on failures: a broken stream is still the caller's to close)", "the stream is closed on a path on which closing was not requested")
 			}
-			c.obF("R15.2", f, "closer-deferred", closerDefer != nil, "the (possibly no-op) closer is deferred", "")
+			c.obRF("R15.2", f, "closer-deferred", closerDefer != nil, "the (possibly no-op) closer is deferred", "")
 			if closerDefer != nil {
 				// deferred before any I/O on the stream
 				for _, ci := range allCalls(f) {
@@ -298,7 +298,7 @@ func runC15(c *Ctx) {
 					c.obI("R15.5", st, "stored-bytes-private", okB, "the bytes stored into an interface destination come from a buffer allocated by this call", "origin "+describeOrigin(bad))
 				}
 			}
-			c.obF("R15.5", f, "stores-bytes", n >= 1, "the consumer stores what it read", "")
+			c.obRF("R15.5", f, "stores-bytes", n >= 1, "the consumer stores what it read", "")
 			// and the buffer is filled from the reader by ReadFrom
 			for _, rf := range callsIn(f, "(*bytes.Buffer).ReadFrom") {
 				_, a := callArgs(rf.Common())
@@ -306,7 +306,7 @@ func runC15(c *Ctx) {
 			}
 		}
 	}
-	c.obF("R15.3", p.Fn("rt.ByteStreamConsumer"), "reflect-sites", nValid >= 6, "reflective uses after Indirect are enumerated", fmt.Sprintf("%d uses", nValid))
+	c.obRF("R15.3", p.Fn("rt.ByteStreamConsumer"), "reflect-sites", nValid >= 6, "reflective uses after Indirect are enumerated", fmt.Sprintf("%d uses", nValid))
 	c.min("R15.1", 20)
 	c.min("R15.2", 6)
 	c.min("R15.4", 5)
@@ -329,7 +329,7 @@ func runC15(c *Ctx) {
 				others = append(others, ta)
 			}
 		}
-		c.obF("R15.2", tpc, "text-marshaler-supported", tm != nil, "the text producer writes a TextMarshaler's text form", "")
+		c.obRF("R15.2", tpc, "text-marshaler-supported", tm != nil, "the text producer writes a TextMarshaler's text form", "")
 		for _, o := range others {
 			c.obI("R15.2", o, "text-marshaler-first", tm != nil && dominates(tm, o), "the text producer asks for encoding.TextMarshaler before any other interface of the value (the text consumer reads into encoding.TextUnmarshaler first, so what is written for such a value is what reading it back expects)", "the value is tested for "+typeStr(o.AssertedType)+" before encoding.TextMarshaler")
 		}
@@ -376,10 +376,22 @@ func ruleSourceAlwaysClosed(c *Ctx, rule string, f *ssa.Function, data *ssa.Para
 			ta = t
 		}
 	}
-	c.obF(rule, f, "recognises-closable-source", ta != nil, "the producer recognises a closable source payload (data.(io.ReadCloser))", "no type assertion of the payload to io.ReadCloser")
 	if ta == nil {
+		// the producer does read from reader payloads (the mechanism is there) but never asks whether they can be closed
+		readsPayload := false
+		for _, in := range instrs(f) {
+			if t, ok := in.(*ssa.TypeAssert); ok && t.X == ssa.Value(data) && (typeStr(t.AssertedType) == "io.Reader" || typeStr(t.AssertedType) == "io.WriterTo") {
+				readsPayload = true
+			}
+		}
+		if readsPayload {
+			c.obF(rule, f, "recognises-closable-source", false, "a closable source payload (data.(io.ReadCloser)) is recognised and always closed", "reader payloads are consumed but never tested for io.ReadCloser: a closable source stays open")
+		} else {
+			c.obRF(rule, f, "recognises-closable-source", false, "the producer recognises a closable source payload (data.(io.ReadCloser))", "no type assertion of the payload to io.ReadCloser")
+		}
 		return
 	}
+	c.obRF(rule, f, "recognises-closable-source", true, "the producer recognises a closable source payload (data.(io.ReadCloser))", "")
 	okv, val := extractOf(ta, 1), extractOf(ta, 0)
 	var d *ssa.Defer
 	for _, df := range defersIn(f) {
@@ -429,5 +441,5 @@ func ruleSourceAlwaysClosed(c *Ctx, rule string, f *ssa.Function, data *ssa.Para
 		unclosed := !dominates(ta, ci) || pathExists(f, ta, ci, notClosable, isOneOf(d))
 		c.obI(rule, ci, "source-close-deferred-before-"+strings.TrimLeft(name, "("), !unclosed, "a closable source payload has its Close deferred before any use of the payload, whatever other interfaces (WriterTo, Reader, BinaryMarshaler …) it implements", "the payload can be consumed through this call without its Close having been deferred")
 	}
-	c.obF(rule, f, "source-io-sites", n >= 3, "the producer's uses of the payload are enumerated", fmt.Sprintf("%d", n))
+	c.obRF(rule, f, "source-io-sites", n >= 3, "the producer's uses of the payload are enumerated", fmt.Sprintf("%d", n))
 }
